@@ -66,6 +66,16 @@ CLAIMS = {
             "u8/u16/u32/u64 conversions of Lut3..Lut6 proved bit-exact bijections (bit m of the integer is f(m)); the 13 aliases are "
             "read from the source (generated) and proved to be StaticLut<N, table_size N>. Both Rust types are tied to the shared model "
             "function by paired transcript replay (identical inputs on both types, every alias N = 0..12).", "section 6 C10"),
+    "C17": ("(A) On the guard structure REGENERATED FROM THE SOURCE on every run (Gen/Guards.v): every parameter of every public method "
+            "of impl Lut / impl StaticLut is classified by (name, type); every variable-index, assignment-index, second-table and "
+            "block-slice parameter is proved guarded by an always-on check placed BEFORE the first profile-sensitive kernel call "
+            "(directly, by forwarding to a guarded method of the same impl, or through a kernel that asserts in every profile); the three "
+            "check_* helpers use assert!/assert_eq!, no wrapper uses debug_assert!; a pinned 50-row guard table; negative examples show "
+            "the predicate fails when a check is removed, moved after the kernel call or demoted to debug_assert!. (B) On the model: for "
+            "each of 21 index/table/slice-taking calls on well-formed operands, invalid argument => PanicAlways, valid => Ok, and NO call "
+            "returns a debug-only panic (no reachable overflow, failing debug_assert or over-wide shift) - C17_profile_independent, "
+            "C17_invalid_panics, C17_valid_ok, for all n. Both build profiles of the real crate are run on the out-of-range grid and on a "
+            "valid workload on every run and compared with the model line by line.", "section 6 C17"),
     "C19": ("PARTIAL (proof of everything that is logic + statistical monitoring of the generator). Proved for an arbitrary generator "
             "output stream: the result is well formed, table bit m is exactly bit m mod 64 of generator word m / 64 (distinct assignments "
             "read distinct generator bits), masking is a uniform projection (bijection word <-> (kept bits, dropped bits)), every "
